@@ -27,7 +27,8 @@ INVS = ['CountFormula', 'SegJoint', 'JunctionCount']
 
 
 def check_record(args):
-    rec, ground, sd = args
+    rec, ground, sd = args[:3]
+    long = len(args) > 3
     out = dict(mism=[], exc=None, n=0)
     N = len(rec.get('pulses', []))
     if rec.get('reject') or N == 0:
@@ -38,7 +39,11 @@ def check_record(args):
         f = 299.8 / lam
         unit = lam * rnd.choice([0.03, 0.05, 0.08])
         radius = lam * rnd.choice([2e-4, 5e-4])          # thick branch: every term goes through psi
-        m, geo = L.build_pair(rec, rnd, ground, f, unit, radius)
+        if long:
+            m, geo = L.build_pair(rec, rnd, ground, f, unit, radius, taper_prob=1.0, taper_max=True,
+                                  vertical=args[3] % 2 == 0)
+        else:
+            m, geo = L.build_pair(rec, rnd, ground, f, unit, radius)
         if len(m.pulses) != N:
             out['mism'].append(dict(what='pulse-count'))
             return out
@@ -52,7 +57,7 @@ def check_record(args):
             i, j = np.unravel_index(err.argmax(), err.shape)
             kinds = [p['kind'] for p in rec['pulses']]
             out['mism'].append(dict(what='matrix-entry', err=float(err.max()), obs=int(i), src=int(j),
-                                    obs_kind=kinds[i], src_kind=kinds[j],
+                                    obs_kind=kinds[i], src_kind=kinds[j], long_tapered=long,
                                     nbad=int((err > 1e-10).sum())))
     except Exception as e:      # noqa
         import traceback
@@ -61,6 +66,9 @@ def check_record(args):
 
 
 def jobs(chk, tier):
+    for r, g in L.long_records(chk):
+        for k in range(6 if tier == 'quick' else 40):
+            yield (r, g, C.seed() + k, k)
     for r, g, cfg in T.records(chk, tier, INVS):
         if not r.get('reject') and not any(o.get('kind') == 'A' for o in r['input']):
             yield (r, g, C.seed())
@@ -74,7 +82,8 @@ def run(tier):
         'Mininec.psi is replaced in the harness process only (no change to the repository); the replacement honours the calling contract of psi (length = |scale| * seg_len of the half selected by the sign of scale)',
         'radius >= 1e-4 wavelength, so every self term goes through psi (the closed-form small-radius branch is outside this check)']
     L.install_surrogate()
-    for (r, g, _), o in C.parallel_imap(check_record, jobs(chk, tier), chunksize=16):
+    for job, o in C.parallel_imap(check_record, jobs(chk, tier), chunksize=16):
+        r, g = job[0], job[1]
         if not r.get('pulses'):
             continue
         kinds = {p['kind'] for p in r['pulses']}
@@ -85,7 +94,7 @@ def run(tier):
             chk.violation(dict(kind='exception', exc=o['exc'].split('(')[0]),
                           dict(input=r['input'], ground=g, exc=o['exc'], spec=r))
         for mm in o['mism']:
-            chk.violation(dict(kind=mm['what'], src_kind=mm.get('src_kind')),
+            chk.violation(dict(kind=mm['what'], src_kind=mm.get('src_kind'), long_tapered=mm.get('long_tapered')),
                           dict(input=r['input'], ground=g, info=mm, spec=r))
     return chk.finish(
         rule='one case per accepted final state of Topology.tla with at least one pulse (evaluations count matrix '
